@@ -173,6 +173,29 @@ CLAIMED["C05"] = dict(
          "argument; UdpClient / ServerClientConnection send_guaranteed entry points are checked on the real code only.",
     design="§8 C05", technique="Lean 4 proof (per-step progress lemmas, witness of the recorded defect) + differential correspondence with healed schedules")
 
+CLAIMED["C12"] = dict(
+    text="Lean theorems over the Conn/Handshake models plus a Client layer (UdpClient setters/connect/update as repaired, ServerContext, the "
+         "server loop's new-connection and sweep code), for EVERY keep-alive, send interval, time-out, tick spacing and state: a due keep-alive "
+         "is emitted (C12_keepalive_emits*); along every history whose build calls come at most tau apart while CONNECTED consecutive emissions "
+         "are at most max(keepAlive, sendInterval)+tau apart (C12_keepalive_cadence*, typed-queue invariant proved); a receiver fed less than T "
+         "apart never times out / never DROPS (C12_never_timed_out/_dropped) and, composed over a link with delay delta, an idle pair stays up "
+         "when g+tau+delta<T (C12_idle_pair_stays_up); after the last accepted datagram the server sweep removes the connection exactly from "
+         "last+connection_timeout on and the client sets DROPPED exactly at the first update later than 5 s (C12_dead_peer_detected_*); an "
+         "unanswered connect ends DISCONNECTED at the first update after the configured time-out with the callback fired exactly once with "
+         "False iff given (C12_connect_timeout*); every order of client setters/connect is error-free and the live connection carries the last "
+         "value, ServerContext values are the ones new connections and sweeps use (C12_settings_effective, C12_server_settings_effective); "
+         "UdpClient.update drains the socket and is a history at one clock value (C12_update_drains/_is_history). Tied to connection.py/"
+         "client.py/context.py/server.py by differential runs (native Conn driver: idle/cut/unanswered-connect histories with boundary probes; "
+         "C12 driver: setter orders on the real UdpClient, connections created and swept by the REAL UdpServerThread loop, update() on "
+         "boundary states and with waiting datagrams) and a world monitor running the real UdpClient against the real server loop under a "
+         "virtual clock.",
+    note=TRUST + "non-dyadic defaults (.1 s, 1/60 s) are constructor parameters; the link in the composed theorem (in-order delivery within "
+         "delta, genuine datagrams accepted) is a hypothesis, monitored on the real code; 'unanswered'/'silent' = no valid hello / no accepted "
+         "datagram; thread scheduling outside the model; forged-hello interplay with the 5 s rule observed and recorded, outside the "
+         "property's quantifier.",
+    design="§8 C12", technique="Lean 4 proof (history invariants over an operation language with update() steps, frame lemmas, typed-queue "
+         "invariant, list-gap arithmetic) + differential correspondence + real client/server world monitor")
+
 CLAIMED["C02"] = dict(
     text="Lean theorems for EVERY instantiation of the external functions (hello decoding, ECDSA verify, ECDH+HKDF, signing): the client "
          "changes its session key or becomes CONNECTED only if the data decoded as a server hello whose signed payload verifies under "
